@@ -174,7 +174,8 @@ pub fn run_schedule(rec: &mut Rec, seed: u64, run: u64, line: &str) {
         owner: None, pool_router: Some(p.f.hub.pool_router.to_string()), fee_distributor: None, pool_factory: None, vault_factory: None,
         take_rate: Some(Decimal::new(Uint128::new(rate))), take_rate_dao_address: Some(p.dao.to_string()), is_take_rate_active: Some(c["active"].as_bool().unwrap()) }, &[]);
     assert!(rs.is_ok(), "{}", rs.err());
-    rec.emit(json!({"ev": "reset", "suite": "pipeline", "run": run, "seed": seed.to_string(), "sched": v.clone(), "obs": p.obs()}));
+    rec.emit(json!({"ev": "reset", "suite": "pipeline", "run": run, "seed": seed.to_string(), "sched": v.clone(),
+        "cfg": {"rate": s(rate), "active": c["active"].as_bool().unwrap()}, "obs": p.obs()}));
     let mut step = 0usize;
     for round in 0..2 {
         // pending fees in the chosen classes (fresh amounts each round)
@@ -229,6 +230,19 @@ pub fn run_schedule(rec: &mut Rec, seed: u64, run: u64, line: &str) {
             "res": rs.tag(), "err": jerr(&rs.err()), "dpre": dpre, "dpost": dpost, "obs": p.obs()}));
         step += 1;
         if !rs.is_ok() { break; }
+        // between the rounds, on every other run, the owner flips the take-rate switch with a message that carries the switch
+        // alone (no rate, no address)
+        if round == 0 && run % 2 == 1 {
+            let flip = !c["active"].as_bool().unwrap();
+            let dpre = p.f.w.digest();
+            let rs = p.f.w.exec(&owner, &p.f.hub.collector.clone(), &white_whale_std::fee_collector::ExecuteMsg::UpdateConfig {
+                owner: None, pool_router: None, fee_distributor: None, pool_factory: None, vault_factory: None,
+                take_rate: None, take_rate_dao_address: None, is_take_rate_active: Some(flip) }, &[]);
+            let dpost = p.f.w.digest();
+            rec.emit(json!({"ev": "setflag", "run": run, "step": step, "actor": "owner", "args": {"active": flip}, "res": rs.tag(), "err": jerr(&rs.err()),
+                "dpre": dpre, "dpost": dpost, "obs": p.obs()}));
+            step += 1;
+        }
         // shorten the grace period window for the next round: with grace 3 nothing expires in two rounds, so
         // use a third and fourth epoch without fees in between
         if round == 0 {
